@@ -277,6 +277,213 @@ func c12Skeleton() ([]string, error) {
 	return nil, fmt.Errorf("(*mutexRuntime).Eval not found in %s", path)
 }
 
+// c12IdSkeleton lists, in source order, the lock operations and the accesses to the counter
+// field in (*ThreadPool).NewThreadID (engine/pool/threadpool.go). The counter is the receiver
+// field that is incremented (x++, x += 1, x = x + 1, atomic.AddUint64(&x, …)).
+//
+//	lock / unlock (first lock used; lock2 / unlock2 any other), read, inc, write (plain),
+//	aload, aadd-used, aadd-unused, aother (sync/atomic)
+func c12IdSkeleton() ([]string, error) {
+	fset := token.NewFileSet()
+	path := filepath.Join(repoDir(), "engine", "pool", "threadpool.go")
+	f, err := parser.ParseFile(fset, path, nil, 0)
+	if err != nil {
+		return nil, err
+	}
+	var fd *ast.FuncDecl
+	for _, d := range f.Decls {
+		if x, ok := d.(*ast.FuncDecl); ok && x.Name.Name == "NewThreadID" && x.Recv != nil {
+			fd = x
+		}
+	}
+	if fd == nil || len(fd.Recv.List) != 1 || len(fd.Recv.List[0].Names) != 1 {
+		return nil, fmt.Errorf("(*ThreadPool).NewThreadID not found in %s", path)
+	}
+	recv := fd.Recv.List[0].Names[0].Name
+	field := func(e ast.Expr) string { // recv.<field> -> field
+		if u, ok := e.(*ast.UnaryExpr); ok && u.Op == token.AND {
+			e = u.X
+		}
+		if s, ok := e.(*ast.SelectorExpr); ok {
+			if id, ok := s.X.(*ast.Ident); ok && id.Name == recv {
+				return s.Sel.Name
+			}
+		}
+		return ""
+	}
+	isAtomic := func(c *ast.CallExpr) string {
+		if s, ok := c.Fun.(*ast.SelectorExpr); ok {
+			if id, ok := s.X.(*ast.Ident); ok && id.Name == "atomic" {
+				return s.Sel.Name
+			}
+		}
+		return ""
+	}
+	// pass 1: the counter field
+	counter := ""
+	ast.Inspect(fd.Body, func(n ast.Node) bool {
+		switch x := n.(type) {
+		case *ast.IncDecStmt:
+			if fl := field(x.X); fl != "" && counter == "" {
+				counter = fl
+			}
+		case *ast.AssignStmt:
+			if len(x.Lhs) == 1 && counter == "" {
+				if fl := field(x.Lhs[0]); fl != "" {
+					counter = fl
+				}
+			}
+		case *ast.CallExpr:
+			if strings.HasPrefix(isAtomic(x), "Add") && len(x.Args) > 0 && counter == "" {
+				counter = field(x.Args[0])
+			}
+		}
+		return true
+	})
+	if counter == "" {
+		return []string{"no-counter-found"}, nil
+	}
+	// pass 2: ordered events
+	var out []string
+	lock1 := ""
+	var expr func(e ast.Expr, used bool)
+	lockTok := func(op, fl string) string {
+		if lock1 == "" {
+			lock1 = fl
+		}
+		if fl == lock1 {
+			return op
+		}
+		return op + "2"
+	}
+	expr = func(e ast.Expr, used bool) {
+		switch x := e.(type) {
+		case nil:
+		case *ast.CallExpr:
+			if a := isAtomic(x); a != "" && len(x.Args) > 0 && field(x.Args[0]) == counter {
+				for _, arg := range x.Args[1:] {
+					expr(arg, true)
+				}
+				switch {
+				case strings.HasPrefix(a, "Load"):
+					out = append(out, "aload")
+				case strings.HasPrefix(a, "Add") && used:
+					out = append(out, "aadd-used")
+				case strings.HasPrefix(a, "Add"):
+					out = append(out, "aadd-unused")
+				default:
+					out = append(out, "aother")
+				}
+				return
+			}
+			if s, ok := x.Fun.(*ast.SelectorExpr); ok && (s.Sel.Name == "Lock" || s.Sel.Name == "Unlock") {
+				if fl := field(s.X); fl != "" {
+					out = append(out, lockTok(strings.ToLower(s.Sel.Name), fl))
+					return
+				}
+			}
+			expr(x.Fun, true)
+			for _, arg := range x.Args {
+				expr(arg, true)
+			}
+		case *ast.SelectorExpr:
+			if field(x) == counter {
+				out = append(out, "read")
+				return
+			}
+			expr(x.X, true)
+		case *ast.UnaryExpr:
+			if x.Op == token.AND && field(x.X) == counter {
+				out = append(out, "write") // address taken outside sync/atomic
+				return
+			}
+			expr(x.X, true)
+		case *ast.BinaryExpr:
+			expr(x.X, true)
+			expr(x.Y, true)
+		case *ast.ParenExpr:
+			expr(x.X, true)
+		case *ast.FuncLit:
+			out = append(out, "closure")
+		}
+	}
+	var stmt func(s ast.Stmt)
+	stmt = func(s ast.Stmt) {
+		switch x := s.(type) {
+		case *ast.BlockStmt:
+			for _, y := range x.List {
+				stmt(y)
+			}
+		case *ast.ExprStmt:
+			expr(x.X, false)
+		case *ast.IncDecStmt:
+			if field(x.X) == counter {
+				out = append(out, "inc")
+			} else {
+				expr(x.X, true)
+			}
+		case *ast.AssignStmt:
+			for _, r := range x.Rhs {
+				expr(r, true)
+			}
+			for i, l := range x.Lhs {
+				if field(l) == counter {
+					// x += 1 / x = x + 1 (the read was emitted with the right-hand side)
+					if x.Tok == token.ADD_ASSIGN {
+						out = append(out, "inc")
+					} else if n := len(out); n > 0 && out[n-1] == "read" && i == 0 {
+						out[n-1] = "inc"
+					} else {
+						out = append(out, "write")
+					}
+				}
+			}
+		case *ast.ReturnStmt:
+			for _, r := range x.Results {
+				expr(r, true)
+			}
+		case *ast.DeferStmt:
+			before := len(out)
+			expr(x.Call, false)
+			for i := before; i < len(out); i++ {
+				out[i] = "defer-" + out[i]
+			}
+		case *ast.IfStmt:
+			out = append(out, "branch")
+			stmt(x.Body)
+			if x.Else != nil {
+				stmt(x.Else)
+			}
+		case *ast.ForStmt:
+			out = append(out, "loop")
+			stmt(x.Body)
+		case *ast.GoStmt:
+			out = append(out, "go")
+		case *ast.DeclStmt:
+			if gd, ok := x.Decl.(*ast.GenDecl); ok {
+				for _, sp := range gd.Specs {
+					if vs, ok := sp.(*ast.ValueSpec); ok {
+						for _, v := range vs.Values {
+							expr(v, true)
+						}
+					}
+				}
+			}
+		}
+	}
+	stmt(fd.Body)
+	// a deferred unlock of the first lock runs after everything else: move it to the end
+	var res, deferred []string
+	for _, t := range out {
+		if strings.HasPrefix(t, "defer-") {
+			deferred = append([]string{strings.TrimPrefix(t, "defer-")}, deferred...)
+		} else {
+			res = append(res, t)
+		}
+	}
+	return append(res, deferred...), nil
+}
+
 func c12Tool(args []string) int {
 	if len(args) < 1 || args[0] != "skeleton" {
 		fmt.Fprintln(os.Stderr, "usage: harness C12 -tool skeleton [out.lean]")
@@ -297,6 +504,20 @@ func c12Tool(args []string) int {
 			sep = ""
 		}
 		sb.WriteString(fmt.Sprintf("  %q%s\n", s, sep))
+	}
+	sb.WriteString("]\n\n")
+	ids, err := c12IdSkeleton()
+	if err != nil {
+		fmt.Fprintln(os.Stderr, err)
+		ids = []string{"extraction failed"}
+	}
+	sb.WriteString("/-- lock operations and counter accesses of `(*ThreadPool).NewThreadID`, in source order -/\n")
+	sb.WriteString("def idSkeleton : List String := [")
+	for i, s := range ids {
+		if i > 0 {
+			sb.WriteString(", ")
+		}
+		sb.WriteString(fmt.Sprintf("%q", s))
 	}
 	sb.WriteString("]\n\nend Ecal.Gen.C12\n")
 	if len(args) > 1 {
